@@ -43,6 +43,15 @@ func c01Opt() ragen.GenOpt {
 	if thorough() {
 		o.MaxDepth, o.MaxItems = 4, 10
 	}
+	o.ConfigGen = func(t *rapid.T) (*string, ragen.Config) {
+		s, c := ragen.CRSLike()
+		if rapid.IntRange(0, 2).Draw(t, "cfgextra") == 0 {
+			// keys the tool does not know do not invalidate the file
+			x := rapid.SampledFrom([]string{"version: 1\n", "# managed by hand\nx-owner: \"crs\"\n"}).Draw(t, "cfgextrakey") + *s
+			s = &x
+		}
+		return s, c
+	}
 	if openFinding("D5") {
 		o.Rx.NoWsRange = true
 	}
